@@ -116,32 +116,38 @@ def object_events(entry, enc, tid0, rng, quick, run):
                 ev2["error"] = repr(e)[:120]
             evs.append(ev2)
             run.case((entry.name, "layout-inv", meth, lead, b), nontrivial=True)
-    # rejection of lengths that are not a multiple of the block size
+    # rejection of lengths that are not a multiple of the block size - also when the TOTAL element count of a batched input is a
+    # multiple (rows must not be glued together), and for 1-D and 3-D inputs
+    def bad_shapes(blk):
+        out = [(2, L) for L in sorted({blk + 1, 2 * blk - 1, 2 * blk + 1}) if L % blk]
+        out += [(blk, blk + 1), (blk + 1,), (2 * blk - 1,)]
+        if blk % 2 == 0:
+            out += [(2, blk // 2), (2, 3 * blk // 2), (2, 1, blk // 2), (4, 2, blk // 2)]
+        if blk % 3 == 0:
+            out += [(3, blk // 3), (3, 2 * blk // 3)]
+        out += [(blk, 1), (2, blk, 1)]
+        return [sh for sh in out if sh[-1] % blk != 0 and sh[-1] > 0]
     if k > 1:
-        for L in sorted({k + 1, 2 * k - 1, 2 * k + 1}):
-            if L % k == 0:
-                continue
+        for sh in bad_shapes(k):
             tid += 1
             raised = False
             try:
-                enc(torch.zeros(2, L))
+                enc(torch.zeros(sh))
             except Exception:
                 raised = True
-            evs.append({"ev": "Reject", "tid": tid, "op": "encode", "last": L, "block": k, "raised": raised})
+            evs.append({"ev": "Reject", "tid": tid, "op": "encode", "last": sh[-1], "block": k, "raised": raised, "shape": list(sh)})
     for meth in METHODS:
         f = getattr(enc, meth, None)
         if f is None or n == 1:
             continue
-        for L in sorted({n + 1, 2 * n - 1}):
-            if L % n == 0:
-                continue
+        for sh in bad_shapes(n):
             tid += 1
             raised = False
             try:
-                f(torch.zeros(2, L))
+                f(torch.zeros(sh))
             except Exception:
                 raised = True
-            evs.append({"ev": "Reject", "tid": tid, "op": meth, "last": L, "block": n, "raised": raised})
+            evs.append({"ev": "Reject", "tid": tid, "op": meth, "last": sh[-1], "block": n, "raised": raised, "shape": list(sh)})
     return evs, tid
 
 
